@@ -488,6 +488,7 @@ func writeReplay(e *Engine, path string, res *SolveResult, frs []*FuncResult) bo
 		if rp.TestSrc != "" {
 			os.WriteFile(strings.TrimSuffix(path, ".txt")+"_test.go.txt", []byte(rp.TestSrc), 0o644)
 			sb.WriteString("replay test source: " + strings.TrimSuffix(path, ".txt") + "_test.go.txt\n")
+			sb.WriteString("replay package dir: " + rp.PkgDir + "\n")
 		}
 	}
 	sb.WriteString("\n---- solver output ----\n" + truncate(res.Output, 20000) + "\n")
